@@ -364,3 +364,316 @@ def boundary(d):
                     "01:02:03.+12", "01:02:03.-12", "01:02:03. 12", "01:02:03.12 ", "01:02:03.1_2", "01:02:03,123", "01.02.03", "24:00:00", "23:60:00",
                     "23:59:60", "23:59:60.000", "23:59:60.000000", "23:59:61", "00:00:00.000000", "23:59:59.999999", "00:00:60"]
     return out
+
+
+# ------------------------------------------------------------------------------------------------
+# Groups of cases: one field (tag, datatype name, enumerators) with many strings
+# ------------------------------------------------------------------------------------------------
+
+class Group:
+    __slots__ = ("tag", "ftype", "values", "label", "strings", "obj", "in_dict")
+
+    def __init__(self, tag, ftype, values=(), label="", strings=(), obj=None, in_dict=False):
+        self.tag, self.ftype, self.values, self.label = tag, ftype, tuple(values), label
+        self.strings = list(dict.fromkeys(strings))      # distinct, order kept
+        self.obj = obj                                   # the real SchemaField of a parsed dictionary, if any
+        self.in_dict = in_dict
+
+    def field(self):
+        from asyncfix.protocol.schema import SchemaField
+        if self.obj is not None:
+            return self.obj
+        return SchemaField(self.tag, "t", self.ftype, {v: "d" for v in self.values})
+
+    def case(self, s):
+        return {"tag": self.tag, "ftype": self.ftype, "values": list(self.values), "s": s, "src": self.label}
+
+
+def load_dictionaries():
+    from asyncfix.protocol.schema import FIXSchema
+    out = {}
+    for stem, rel in (("fix44", "tests/FIX44.xml"), ("tt", "tests/TT-FIX44.xml")):
+        out[stem] = FIXSchema(os.path.join(core.REPO, rel))
+    return out
+
+
+def type_groups(ctx, maxlen):
+    """Per datatype name: exhaustive short strings, boundary values with all their one-edit neighbours (short ones) or
+    random edits (long ones), random members and near-misses."""
+    rng = ctx.rng
+    names = TYPE_NAMES + ["int", "Price", "UtcTimeStamp", "UNSUPPORTED", "TAGNUM", "TIME", "MULTIPLEVALUESTRINGS"]
+    groups = []
+    n_rand = ctx.scale(1500, 20000)
+    for name in names:
+        d = DATATYPE_OF.get(name.upper())
+        if d is None:
+            groups.append(Group("1", name, label="unsupported-name", strings=["1", "a", "=", SOH, " ", "202309", "x" * 50]))
+            continue
+        alpha = alphabet(d)
+        strs = []
+        if name in TYPE_NAMES:
+            strs += list(exhaustive(alpha, maxlen))
+            if d in ("Country", "Currency", "Exchange"):
+                strs += ["".join(t) for t in itertools.product(["A", "z", "0", "_", "é", "@"], repeat=5)]
+            if d == "month-year":
+                strs += ["".join(t) for t in itertools.product(["0", "1", "2", "9", "w", ARABIC3], repeat=6)]
+                strs += [b + "".join(t) for b in ("202309", "000002", "202402", "202313") for t in itertools.product(alpha, repeat=2)]
+        bnd = boundary(d)
+        strs += bnd
+        for b in bnd:
+            if len(b) <= 24:
+                strs += one_edits(b, alpha) if rng.random() < ctx.scale(0.25, 1.0) else [rand_edit(rng, b, alpha) for _ in range(4)]
+            else:
+                strs += [rand_edit(rng, b, alpha) for _ in range(3)]
+        for _ in range(n_rand if name in TYPE_NAMES else 50):
+            m = rand_member(rng, d)
+            strs.append(m)
+            e = rand_edit(rng, m, alpha)
+            strs.append(e)
+            if rng.random() < 0.3:
+                strs.append(rand_edit(rng, e, alpha))
+        groups.append(Group("1", name, label="type:" + name, strings=strs))
+        # EndSeqNo special case: same datatype under tag 16
+        sp = ["0", "00", "-0", "0 ", " 0", "0\n", "+0", "0.0", "", "1", "-1", "٠", "０"] + [m for m in bnd[:40]] + list(exhaustive(alpha, 2))
+        groups.append(Group("16", name, label="tag16:" + name, strings=sp))
+    return groups
+
+
+def dictionary_groups(ctx, dicts):
+    """Every field of both parsed dictionaries, through the real SchemaField objects."""
+    rng = ctx.rng
+    groups = []
+    per_plain = ctx.scale(12, 60)
+    for stem, schema in dicts.items():
+        allvals = sorted({v for f in schema._tag2field.values() for v in f.values})
+        for tag, f in schema._tag2field.items():
+            d = DATATYPE_OF.get(f.ftype.upper())
+            if f.values:
+                vals = list(f.values)
+                alpha = sorted({c for v in vals for c in v} | {" ", "0", "=", "a"})
+                strs = list(vals) + [""]
+                for v in vals:
+                    strs += one_edits(v, alpha) if len(v) <= 3 else [rand_edit(rng, v, alpha) for _ in range(8)]
+                    strs += [v.lower(), v.upper(), v + " " + vals[0], " " + v, v + " ", v + "\n", v + SOH, "0" + v, v + "0", v + ".0", "+" + v]
+                strs += list(exhaustive(alpha[:8], 2))
+                strs += [rng.choice(allvals) for _ in range(10)]
+                if d is not None:
+                    strs += [rand_member(rng, d) for _ in range(5)]
+                groups.append(Group(f.tag, f.ftype, vals, "enum:%s:%s" % (stem, tag), strs, obj=f, in_dict=True))
+            else:
+                strs = ["", "0", "1", "-1", "a", "=", SOH, " "]
+                if d is not None:
+                    bnd = boundary(d)
+                    for _ in range(per_plain):
+                        m = rand_member(rng, d)
+                        strs += [m, rand_edit(rng, m, alphabet(d)), rng.choice(bnd)]
+                if tag == "16":
+                    strs += ["0", "00", "-0", "0 ", "+0", "1", "2", "0.0"] + list(exhaustive(ALPHA_NUM, 2))
+                groups.append(Group(f.tag, f.ftype, (), "field:%s:%s" % (stem, tag), strs, obj=f, in_dict=True))
+    return groups
+
+
+# ------------------------------------------------------------------------------------------------
+# Implementation driver, model driver, oracle
+# ------------------------------------------------------------------------------------------------
+
+def run_impl(groups):
+    """codes per group: 0 accept, 1 accept + warning, 2 FIXMessageError, 3 AssertionError, 4 ValueError, else class name."""
+    from asyncfix.errors import FIXMessageError
+    res = []
+    with warnings.catch_warnings(record=True) as w:
+        warnings.simplefilter("always")
+        for g in groups:
+            f = g.field()
+            vv = f.validate_value
+            codes = []
+            for s in g.strings:
+                try:
+                    r = vv(s)
+                    c = 0 if r is True else "returned %r" % (r,)
+                except FIXMessageError:
+                    c = 2
+                except AssertionError:
+                    c = 3
+                except ValueError:
+                    c = 4
+                except Exception as e:      # noqa: BLE001 - the class is the observation
+                    c = type(e).__name__
+                if w:
+                    if c == 0:
+                        c = 1
+                    del w[:]
+                codes.append(c)
+            res.append(codes)
+    return res
+
+
+LINE_STRINGS = 4000
+
+
+def model_lines(groups):
+    lines, index = [], []
+    for gi, g in enumerate(groups):
+        head = "[%s,%s,%s]" % (core.sx(g.tag), core.sx(g.ftype), core.sx(list(g.values)))
+        for i in range(0, len(g.strings), LINE_STRINGS):
+            chunk = g.strings[i:i + LINE_STRINGS]
+            lines.append("[%s,[%s]]" % (head, ",".join(core.sx(s) for s in chunk)))
+            index.append((gi, i, len(chunk)))
+    return lines, index
+
+
+def run_model(ctx, groups, workers=8):
+    lines, index = model_lines(groups)
+    if not lines:
+        return [[] for _ in groups]
+    # balance by size, keep order inside each worker
+    order = sorted(range(len(lines)), key=lambda i: -len(lines[i]))
+    buckets = [[] for _ in range(workers)]
+    loads = [0] * workers
+    for i in order:
+        b = loads.index(min(loads))
+        buckets[b].append(i)
+        loads[b] += len(lines[i])
+    out = [None] * len(lines)
+
+    def work(idx):
+        return idx, ctx.model.batch([lines[i] for i in idx], timeout=900)
+
+    with ThreadPoolExecutor(max_workers=workers) as ex:
+        for idx, res in ex.map(work, [b for b in buckets if b]):
+            for i, r in zip(idx, res):
+                out[i] = r
+    res = [[None] * len(g.strings) for g in groups]
+    for (gi, start, n), r in zip(index, out):
+        if not isinstance(r, list) or len(r) != n:
+            raise RuntimeError("model reply malformed for group %s: %r" % (groups[gi].label, r if not isinstance(r, list) else len(r)))
+        res[gi][start:start + n] = r
+    return res
+
+
+def expected(g, s):
+    """Oracle: (accept?, datatype) demanded by the property for this field and string; None = not defined."""
+    if g.values:
+        return (s != "" and s in set(g.values)), None
+    d = DATATYPE_OF.get(g.ftype.upper())
+    if d is None:
+        return None, None
+    ok = lex(d, s) or (g.tag == "16" and s == "0")       # EndSeqNo = 0 means "infinity" and is part of that field's space
+    return ok, d
+
+
+def judge(ctx, g, s, code):
+    """Property oracle on one observation of the implementation."""
+    if code not in (0, 1, 2):
+        ctx.fail(g.case(s), "rejection/return is not the library's message error: %s" % (
+            {3: "AssertionError", 4: "ValueError"}.get(code, code)), None)
+        return
+    want, d = expected(g, s)
+    if want is None:
+        if g.in_dict:
+            ctx.fail(g.case(s), "datatype %s is used by a dictionary but is not validated (unsupported datatype)" % g.ftype, None)
+        return
+    got = code in (0, 1)
+    cls = kf_class(d, s) if (d is not None and not (g.tag == "16" and s == "0")) else None
+    if code == 1:
+        ctx.fail(g.case(s), "datatype %s (%s) falls through to the unsupported-datatype warning" % (g.ftype, d), None)
+    elif got != want:
+        ctx.fail(g.case(s), "%s %r: implementation %s, FIX lexical space of %s says %s" % (
+            g.ftype, s[:60], "accepts" if got else "refuses", d or "the enumeration", "member" if want else "not a member"), cls)
+    elif cls is not None:
+        ctx.extra.setdefault("known_classes_not_reproduced", {}).setdefault(cls, 0)
+        ctx.extra["known_classes_not_reproduced"][cls] += 1
+
+
+def evaluate(ctx, groups, use_model=True):
+    impl = run_impl(groups)
+    model = run_model(ctx, groups) if (use_model and ctx.model) else None
+    for gi, g in enumerate(groups):
+        kind = g.label.split(":")[0]
+        ic = impl[gi]
+        mc = model[gi] if model else None
+        ctx.count(kind, len(g.strings))
+        key = (g.tag, g.ftype, g.label if g.values else "")
+        for i, s in enumerate(g.strings):
+            ctx.case((key, s), len(s) > 1)
+            c = ic[i]
+            judge(ctx, g, s, c)
+            if mc is not None and mc[i] != c:
+                if len(ctx.disagreements) < 200:
+                    ctx.disagree(g.case(s), c, mc[i], "accept/exception-class")
+                else:
+                    ctx.extra["more_disagreements"] = ctx.extra.get("more_disagreements", 0) + 1
+        ctx.traces += 1
+    return impl
+
+
+def dictionary_facts(ctx, dicts):
+    """Informational: datatypes used, and enumerators that lie outside the lexical space of their declared datatype."""
+    odd = []
+    for stem, schema in dicts.items():
+        used = sorted(schema._types)
+        ctx.extra.setdefault("datatypes_used", {})[stem] = used
+        for f in schema._tag2field.values():
+            d = DATATYPE_OF.get(f.ftype.upper())
+            for v in f.values:
+                if d is not None and not lex(d, v):
+                    odd.append("%s tag %s (%s): enumerator %r" % (stem, f.tag, f.ftype, v))
+    if odd:
+        ctx.notes.append("dictionary enumerators outside the lexical space of their declared datatype (accepted through the "
+                         "enumeration, as the property asks): " + "; ".join(odd))
+
+
+def run(ctx):
+    dicts = load_dictionaries()
+    dictionary_facts(ctx, dicts)
+    groups = corpus() + type_groups(ctx, ctx.scale(4, 4)) + dictionary_groups(ctx, dicts)
+    if ctx.tier == "thorough":
+        for name in ("INT", "FLOAT", "SEQNUM", "DAYOFMONTH"):
+            groups.append(Group("1", name, label="type5:" + name, strings=exhaustive(ALPHA_NUM[:11], 5)))
+    evaluate(ctx, groups)
+    g0 = next(g for g in groups if g.label == "type:UTCTIMESTAMP")
+    ctx.samples.append({"field": ["1", "UTCTIMESTAMP", []], "strings": g0.strings[-4:], "impl": run_impl([Group("1", "UTCTIMESTAMP", strings=g0.strings[-4:])])[0]})
+    ctx.extra["groups"] = len(groups)
+
+
+def corpus():
+    import glob
+    out = []
+    for f in sorted(glob.glob(os.path.join(os.path.dirname(__file__), "..", "corpus", "C19", "*.json"))):
+        c = json.load(open(f))
+        out.append(Group(c["tag"], c["ftype"], c.get("values", ()), "corpus:" + os.path.basename(f), [c["s"]]))
+    return out
+
+
+def search(ctx, cases):
+    """A proof, the translator or the correspondence broke: look for an input on which the implementation itself
+    leaves the lexical spaces (the oracle needs no model)."""
+    groups = [Group(c["tag"], c["ftype"], c.get("values", ()), "search:case", [c["s"]]) for c in cases if c]
+    dicts = load_dictionaries()
+    for stem, schema in dicts.items():
+        for t in sorted(schema._types):
+            if t.upper() not in DATATYPE_OF:
+                f = next(f for f in schema._tag2field.values() if f.ftype == t and not f.values) if any(
+                    f.ftype == t and not f.values for f in schema._tag2field.values()) else None
+                groups.append(Group(f.tag if f else "1", t, (), "search:newtype", ["1", "a", SOH], obj=f, in_dict=True))
+    evaluate(ctx, groups, use_model=False)
+    if ctx.failures:
+        return
+    evaluate(ctx, type_groups(ctx, 3) + dictionary_groups(ctx, dicts), use_model=False)
+
+
+def replay(path):
+    rec = json.load(open(path))
+    case = rec.get("input")
+    if not case:
+        print("replay: no concrete input; broken:", rec.get("broken"))
+        return 1
+    g = Group(case["tag"], case["ftype"], case.get("values", ()), "replay", [case["s"]])
+    code = run_impl([g])[0][0]
+    want, d = expected(g, case["s"])
+    names = {0: "accepted", 1: "accepted with unsupported-datatype warning", 2: "FIXMessageError", 3: "AssertionError", 4: "ValueError"}
+    print("field tag=%s type=%s values=%s value=%r" % (g.tag, g.ftype, list(g.values)[:8], case["s"]))
+    print("implementation: %s" % names.get(code, code))
+    print("FIX lexical space (%s): %s" % (d or "enumeration", {True: "member", False: "not a member", None: "undefined"}[want]))
+    bad = code not in (0, 1, 2) or code == 1 or (want is not None and (code == 0) != want)
+    return 1 if bad else 0
